@@ -1,7 +1,8 @@
 /-
 C11 — Python ranges and python_version markers convert into each other exactly.
 Property theorems only (helper lemmas in Proofs/PyConvText.lean, PyConvMarker.lean, PyConvSem.lean,
-PyConvRange.lean, PyConvNorm.lean, PyConvGpc.lean, PyConvPoetry.lean, PyConvLeaf.lean).
+PyConvRange.lean, PyConvNorm.lean, PyConvGpc.lean, PyConvPoetry.lean, PyConvLeaf.lean,
+PyConvSplit.lean, PyConvShape.lean, PyConvSplitSem.lean, PyConvSplitSound.lean).
 
 Vocabulary.  `EnvPy E X Y Z`: the environment `E` has `python_version = "X.Y"` and
 `python_full_version = "X.Y.Z"` (all of `X Y Z : Nat`, unbounded); `pyV X Y Z` is the version `X.Y.Z`.
@@ -179,26 +180,26 @@ theorem pyConstraint_upper_foreign_leaf (l : Leaf) (h : isPyName l.name = false)
 the DNF (C07's `dnf_sound`, proved), the grouping of `convert_markers` (assertion included), de-duplication,
 the `[] in groups` shortcut and the printed text.  Hypotheses: C07's leaf specification `S`; `hL`: every python
 single-marker-like satisfying the invariant is a comparison item whose normalised clause means its truth
-(`normalize_pair_exact` composed with C06's leaf agreement); `hSp`: the constraint parser on texts of several
-clauses (`SplitSound`, C04/C05/C15's subject). -/
+(`normalize_pair_exact` composed with C06's leaf agreement; discharged for poetry's own leaf truth in `leaf_clause`).
+The constraint parser on the printed text of several clauses is proved (`split_sound`). -/
 theorem pyConstraint_upper_partial {ev : Leaf → Bool} {G : Leaf → Prop} (S : LeafSpec ev G) (X Y Z : Nat)
     (m : M) (g : VC) (hg : M.Good G m)
-    (hL : ∀ l, G l → convKey l.name = pyKey → LeafClause ev X Y Z l) (hSp : SplitSound X Y Z)
+    (hL : ∀ l, G l → convKey l.name = pyKey → LeafClause ev X Y Z l)
     (h : gpc m = .ok g) (hs : M.sem ev m = true) : g.allowsPlain (pyV X Y Z) = true :=
-  gpc_upper S X Y Z m g hg hL hSp h hs
+  gpc_upper S X Y Z m g hg hL (splitSound_holds X Y Z) h hs
 
 /-- **exactness for python-only markers**: for a marker over `python_version` / `python_full_version` only, the
 range admits exactly the interpreters on which the marker holds.  The shape of the DNF is C07's unconditional
 `dnf_isDnf`; what is assumed about it: it is not the empty marker when `only` did not already answer empty
 (`hne` — otherwise the code returns the universal range for an unsatisfiable marker) and it mentions python
-variables only (`hpy`).  Other hypotheses as in the one-sided part (both directions of `SplitSound` are used). -/
+variables only (`hpy`).  Other hypotheses as in the one-sided part (both directions of `split_sound` are used). -/
 theorem pyConstraint_exact_partial {ev : Leaf → Bool} {G : Leaf → Prop} (S : LeafSpec ev G) (X Y Z : Nat)
     (m : M) (g : VC) (hg : M.Good G m) (hv : ∀ n ∈ M.vars m, pyNames.contains n = true)
-    (hL : ∀ l, G l → convKey l.name = pyKey → LeafClause ev X Y Z l) (hSp : SplitSound X Y Z)
+    (hL : ∀ l, G l → convKey l.name = pyKey → LeafClause ev X Y Z l)
     (hne : ∀ d, dnf defaultFuel [] m = .ok d → d ≠ .empty)
     (hpy : ∀ d, dnf defaultFuel [] m = .ok d → ∀ l ∈ M.leaves d, convKey l.name = pyKey)
     (h : gpc m = .ok g) : M.sem ev m = g.allowsPlain (pyV X Y Z) :=
-  gpc_exact S X Y Z m g hg hv hL hSp hne hpy h
+  gpc_exact S X Y Z m g hg hv hL (splitSound_holds X Y Z) hne hpy h
 
 /-- the hypotheses are satisfiable on a concrete object: a python item is a `LeafClause` as soon as its truth is
 the reference value of the item (here `python_version >= "3.8"` on CPython 3.8.1), and a one-leaf marker is a
@@ -214,9 +215,29 @@ example : let s : Single := ⟨"python_version", ">=", "3.8", false, .ver (.sing
       have : evalItem "python_version" ">=" (relText [3, 8]) false env381 = some true := by decide
       rw [this] at hevi; injection hevi with hevi; exact hevi.symm
     subst hb
-    exact ⟨s, item, rfl, by simp [RelOp, s], hitem, by rw [hev]; exact hmean⟩
+    obtain ⟨item', hitem', hshape⟩ := normPair_shape "python_version" ">=" [3, 8] (by simp [RelOp]) (.short 3 8)
+    rw [hitem] at hitem'; injection hitem' with hitem'; subst hitem'
+    exact ⟨s, item, rfl, by simp [RelOp, s], hitem, by rw [hev]; exact hmean, hshape⟩
   · simp [membersIfUnion] at hc; subst hc
     exact Or.inl ⟨_, rfl, by decide⟩
+
+/-- **the constraint parser on a text of several normalised clauses** (the former hypothesis `SplitSound`): for
+groups of clause texts of the shape the normaliser prints (`ItemShape`: no blank/comma/bar inside, parsing alone to a
+constraint of C05's regular setting — `normPair_shape` shows every normalised clause is one), joined by blanks inside a
+group and by ` || ` between groups, `parse_marker_version_constraint` returns a constraint that admits `X.Y.Z` when all
+clauses of one group do and rejects it when every group has a rejecting clause.  From the regex-level splitting
+lemmas (`splitOr_groups`, `splitAnd_items`) and C05's `VC.intersect_reg` / `unionOfFlat_reg`. -/
+theorem split_sound (X Y Z : Nat) : SplitSound X Y Z := splitSound_holds X Y Z
+
+example : ItemShape "~3.8" ∧ ItemShape "!=3.8.*" := by
+  obtain ⟨i1, h1, s1⟩ := normPair_shape "python_version" "==" [3, 8] (by simp [RelOp]) (.short 3 8)
+  obtain ⟨i2, h2, s2⟩ := normPair_shape "python_version" "!=" [3, 8] (by simp [RelOp]) (.short 3 8)
+  have e1 : normalizePyPair "==" (relText [3, 8]) = .ok "~3.8" := by decide
+  have e2 : normalizePyPair "!=" (relText [3, 8]) = .ok "!=3.8.*" := by decide
+  rw [e1] at h1; rw [e2] at h2
+  injection h1 with h1; injection h2 with h2
+  subst h1; subst h2
+  exact ⟨s1, s2⟩
 
 /-- **`LeafClause` discharged**: C11's `normalize_pair_exact` composed with C06's leaf agreement (text level, all
 numbers): a coherent, evaluable python single marker of the exact shape is a `LeafClause` for poetry's own leaf
@@ -227,21 +248,21 @@ theorem leaf_clause (E : Env) (X Y Z : Nat) (hE : EnvPy E X Y Z) (l : Leaf) (hc 
 
 /-- **the one-sided part against poetry's own `validate`** (leaf invariant `PyG E` = coherent, evaluable single
 markers with canonical variable names, python ones of the exact shape): if the marker validates to true on the environment of `X.Y.Z`, the
-range admits `X.Y.Z`.  Remaining hypotheses: the leaf specification `S` and `SplitSound`. -/
+range admits `X.Y.Z`.  Remaining hypothesis: the leaf specification `S`. -/
 theorem pyConstraint_upper_validate_partial (E : Env) (X Y Z : Nat) (hE : EnvPy E X Y Z)
-    (S : LeafSpec (leafEval E) (PyG E)) (hSp : SplitSound X Y Z) (m : M) (g : VC) (hg : M.Good (PyG E) m)
+    (S : LeafSpec (leafEval E) (PyG E)) (m : M) (g : VC) (hg : M.Good (PyG E) m)
     (h : gpc m = .ok g) (hv : M.validate E m = .ok true) : g.allowsPlain (pyV X Y Z) = true :=
-  gpc_upper_validate E X Y Z hE S hSp m g hg h hv
+  gpc_upper_validate E X Y Z hE S m g hg h hv
 
 /-- **exactness against poetry's own `validate`** for python-only markers: `validate` returns exactly
 `allows(X.Y.Z)` of the range.  That the DNF mentions python variables only is now proved (`dnf_vars`: the
 simplifier mentions no new variable, relative to `S` and the leaf-level fact `ReparseNames`). -/
 theorem pyConstraint_exact_validate_partial (E : Env) (X Y Z : Nat) (hE : EnvPy E X Y Z)
-    (S : LeafSpec (leafEval E) (PyG E)) (hSp : SplitSound X Y Z) (m : M) (g : VC) (hg : M.Good (PyG E) m)
+    (S : LeafSpec (leafEval E) (PyG E)) (m : M) (g : VC) (hg : M.Good (PyG E) m)
     (hvars : ∀ n ∈ M.vars m, pyNames.contains n = true) (HR : ReparseNames)
     (hne : ∀ d, dnf defaultFuel [] m = .ok d → d ≠ .empty)
     (h : gpc m = .ok g) : M.validate E m = .ok (g.allowsPlain (pyV X Y Z)) :=
-  gpc_exact_validate E X Y Z hE S hSp m g hg hvars HR hne h
+  gpc_exact_validate E X Y Z hE S m g hg hvars HR hne h
 
 /-- the invariant `PyG` on a concrete leaf: `python_version >= "3.8"` on CPython 3.8.1 -/
 example : PyG env381 (.single ⟨"python_version", ">=", "3.8", false, .ver (.single (.rng ⟨some (v [3, 8]), none, true, false⟩))⟩) :=
